@@ -142,11 +142,24 @@ def inputsB (matchDel matchDmn delDone dmnLive dmnForever marked blocked cons me
   { spawning := true, spawnReq := matchDmn && !dmnForever, changing := matchDel || otherChanging,
     changeReq := matchDel, isBlocked := blocked, isOngoing := marked, deletedEvent := false,
     consistent := cons && memEmpty, spawnDelays := dmnLive && (marked || !matchDmn),
-    changeDelays := (marked && blocked && matchDel && !(delDone && !delReset)) || otherDelays }
+    changeDelays := (marked && blocked && matchDel && !(delDone && !delReset)) || otherDelays,
+    deadline := false, paused := false, carried := false }
+
+/-- The same inputs with an awaited version (`consistency_time is not None`) and/or a carried patch
+(`not patch_initially_empty`; its effect on `consistent` is in `inputsB`'s own argument): read by the early exit
+only, for the delays it returns — nothing else of the decision depends on them (`dw_*`). -/
+def withWait (i : In) (w c : Bool) : In := { i with deadline := w, carried := c }
 
 theorem inputs_eq (own : String) (v : Snap) (s : State) (e : Env) :
-    inputs own v s e = inputsB v.matchDel v.matchDmn s.delDone s.dmnLive s.dmnForever v.marked
-      (decide (own ∈ v.fins)) e.consistent s.mem.isEmpty e.otherChanging e.otherDelays e.delReset := rfl
+    inputs own v s e = withWait (inputsB v.matchDel v.matchDmn s.delDone s.dmnLive s.dmnForever v.marked
+      (decide (own ∈ v.fins)) (e.consistent && !e.carried) s.mem.isEmpty e.otherChanging e.otherDelays e.delReset)
+      e.waiting (e.carried || !s.mem.isEmpty) := rfl
+
+@[simp] theorem dw_add (i : In) (w c : Bool) : (decision (withWait i w c)).add = (decision i).add := rfl
+@[simp] theorem dw_rem (i : In) (w c : Bool) : (decision (withWait i w c)).removeUnneeded = (decision i).removeUnneeded := rfl
+@[simp] theorem dw_rel (i : In) (w c : Bool) : (decision (withWait i w c)).release = (decision i).release := rfl
+@[simp] theorem dw_run (i : In) (w c : Bool) : (decision (withWait i w c)).handlersRun = (decision i).handlersRun := rfl
+@[simp] theorem dw_fns (i : In) (w c : Bool) : (decision (withWait i w c)).fns = (decision i).fns := rfl
 
 /-- Whenever the block queues a removal, nothing requires the finalizer on the object it saw
 (the daemon it may just have spawned included). -/
@@ -389,7 +402,7 @@ def afterCycle (own : String) (s : State) (e : Env) : State :=
 
 theorem cycle_run (own : String) (s : State) (e : Env) (hg : s.gone = false) (hp : s.pending = none) :
     run own s (cycleLabels s e) = some (afterCycle own s e) := by
-  rcases e with ⟨c, m, oc, od, mc, uf, dr⟩
+  rcases e with ⟨c, m, oc, od, mc, uf, cr, wt, dr⟩
   cases m <;> cases mc <;>
     simp [cycleLabels, run, step, stepDecide, stepMerge, stepJson, hg, hp, afterCycle] <;>
     split <;> simp_all
@@ -419,6 +432,15 @@ theorem arm_bool : ∀ (matchDel matchDmn delDone dmnLive dmnForever marked bloc
       || (decision (inputsB matchDel matchDmn delDone dmnLive dmnForever marked blocked cons memEmpty otherChanging otherDelays delReset)).release) = true →
       blocked = true ∧ ((matchDel || (matchDmn && !dmnForever)) = false ∨ marked = true)) := by
   decide
+
+/-- `arm_bool` on the inputs of a cycle of the LTS. -/
+theorem arm_inputs (own : String) (v : Snap) (s : State) (e : Env) :
+    ((decision (inputs own v s e)).add = true →
+      (v.matchDel || (v.matchDmn && !s.dmnForever)) = true ∧ decide (own ∈ v.fins) = false ∧ v.marked = false) ∧
+    (((decision (inputs own v s e)).removeUnneeded || (decision (inputs own v s e)).release) = true →
+      decide (own ∈ v.fins) = true ∧ ((v.matchDel || (v.matchDmn && !s.dmnForever)) = false ∨ v.marked = true)) :=
+  arm_bool v.matchDel v.matchDmn s.delDone s.dmnLive s.dmnForever v.marked (decide (own ∈ v.fins))
+    (e.consistent && !e.carried) s.mem.isEmpty e.otherChanging e.otherDelays e.delReset
 
 /-- the fns of a decision without `add` and with a removal end in a removal -/
 theorem fns_snoc_allow (d : Decision) (ha : d.add = false) (hr : (d.removeUnneeded || d.release) = true) :
